@@ -512,6 +512,40 @@ func c05(c *an.Check) {
 		}
 		return ""
 	})
+	// a different peer at the address is a retryable condition, never a fatal one: the dialer keyed by (X, addr) keeps
+	// backing off so that X is reached once it answers there
+	cCAC := an.R(qPkg, "", "CheckAlreadyConnected")
+	nMis := 0
+	c.EachReturn("RETRY", "quic.Transport.DialPeer reports a different peer at the address as non-fatal", dp, "fatal=false on the already-connected-to-another-peer and wrong-peer-answered returns", func(s *an.State, ret *ssa.Return) string {
+		mismatch := ""
+		for _, call := range an.Calls(dp, cCAC) {
+			if e := an.ErrResult(call, -1); e != nil && s.KnownNonNilErr(e) {
+				mismatch = "the address is already connected to a different peer"
+			}
+		}
+		if s.AnyFact(func(s *an.State, x, y ssa.Value, r an.Rel) bool {
+			isRemote := func(v ssa.Value) bool {
+				call, ok := s.Canon(an.ConvOf(v)).(*ssa.Call)
+				if !ok {
+					return false
+				}
+				fo := an.CallObj(call.Common())
+				return fo != nil && fo.Name() == "GetRemotePeer"
+			}
+			return r&an.EQ == 0 && ((isRemote(x) && an.IsParam(an.ConvOf(y), 2)) || (isRemote(y) && an.IsParam(an.ConvOf(x), 2)))
+		}) {
+			mismatch = "a different peer answered"
+		}
+		if mismatch == "" {
+			return ""
+		}
+		nMis++
+		if !s.IsFalse(s.RetVal(ret, 1)) {
+			return "when " + mismatch + " the dial is reported as fatal: the dialer for the requested peer stops retrying and a later request can never be satisfied"
+		}
+		return ""
+	})
+	c.Require(nMis >= 2, "RETRY", "quic.Transport.DialPeer mismatch returns found", dp, "", nMis, "both mismatch returns enumerated", "anchor drift: the already-connected / wrong-peer returns were not found")
 	// controller side: a lost link restarts the dialers that were resolved with it
 	a := tcResolve(c)
 	if a != nil {
